@@ -99,6 +99,60 @@ CLAIMED.update({
             PIPE_NOTE + "templates of 3-4 steps quick, 5 thorough; default patterns plus an unanchored custom pair; relative-exit known finding assumed away."),
 })
 
+CLAIMED.update({
+    "C08": ("DESIGN.md 9/C08", TECH + "relational lockstep: two instances of the real code on two encodings of one symbolic tool path inside the same path condition",
+            "Bounded symbolic model checking, relational: one abstract path of K symbolic native targets is rendered in mm/absolute and, "
+            "from a symbolic switch position on, in inches / relative coordinates / after a G92 re-basing / translated together with the "
+            "regions; both renderings run through separate real handler+state instances; z3 shows equal decisions after every step and "
+            "equal physical end positions.",
+            PIPE_NOTE + "K=3 quick / 4 thorough, one region, G1 vocabulary (no arcs); three known findings assumed away (relative exit, "
+            "G92 X/Y/Z offset sign, entering move with Z)."),
+    "C10": ("DESIGN.md 9/C10", TECH + "relational: used plugin vs. fresh plugin after PrintStarted, state comparison plus probe program",
+            "Bounded symbolic model checking, relational: plugin A lives through every history of H steps over a 16-item alphabet "
+            "(events, entering/leaving moves, deferred code, disable @-command, G20, G91, retract/recover, G92 E, M206, G10, Z/feed "
+            "changes), then PrintStarted; a fresh plugin B gets the same regions/settings and PrintStarted; z3 shows every tracked "
+            "attribute equal and the results of a K-command probe program equal as RS274 readings.",
+            "OctoPrint injections stubbed; H=2,K=1 quick / H=3,K=2 thorough; attribute equality implies behavioural equality by determinism."),
+    "C11": ("DESIGN.md 9/C11", TECH + "bounded symbolic runs over OctoPrint events with hook probes, exhaustive over the event alphabet",
+            "Bounded symbolic model checking: from four plugin pre-states every sequence of K events (11-item alphabet incl. a settings "
+            "flip) is delivered to the real on_event; after each step the lifecycle machine (active flag, region clearing) is compared, and "
+            "while no print is active the three hooks are probed: G-code results None, nothing sent, script hook None, tracked state "
+            "structurally unchanged.",
+            "OctoPrint injections stubbed; events delivered sequentially (threads not modelled); K=3 quick / 4 thorough."),
+    "C15": ("DESIGN.md 9/C15", TECH + "bounded symbolic runs of script-hook invocations and end events after a symbolic program",
+            "Bounded symbolic model checking: after a program that ends inside or outside an episode (optional Z change and deferred code), "
+            "every sequence of 3 (quick) / 4 (thorough) items from 5 hook invocations and 7 events; the first afterPrintDone call while "
+            "active and excluding must return flush ++ exit script ++ re-sync whose execution re-synchronises the reference printer; every "
+            "other call returns None and changes nothing.",
+            "OctoPrint injections stubbed; absolute positioning; one region."),
+    "C16": ("DESIGN.md 9/C16", TECH + "trig contracts (atan2/cos/sin as constrained reals), QF_NRA obligations staged through lemmas discharged from minimal hypothesis sets",
+            "Bounded symbolic model checking of the real planArc/computeArcCenterOffsets with symbolic start, centre offsets/radius, end "
+            "point and direction: z3 shows the sweep is the angle between the start and end radii normalised to the commanded direction, "
+            "sample k sits at start-angle + k*sweep/n on the circle, n = ceil(|sweep|*radius), consecutive samples at most one unit apart, "
+            "the last pair is the commanded end point; radius form: centre at distance |R| from both end points.",
+            "Floats as reals; trig by contract incl. chord<=arc instances; segments 1..6 quick / 12 thorough; last-sample-to-end spacing and "
+            "the region consequence clause not discharged (stated); radius form with oblique chord is a known finding."),
+    "C18": ("DESIGN.md 9/C18", TECH + "symbolic strings: every free character a solver variable with an interval-set domain; the line regex replaced by a validated backtracking model of `re`",
+            "Bounded symbolic model checking of the real GcodeParser on symbolic text: free strings of N characters over the G-code alphabet "
+            "and multi-line templates; z3/domain reasoning shows the concatenated fullText equals the input character by character, "
+            "re-parsing commandString is stable (also on a re-used parser instance), and a line rendered with line number and checksum "
+            "validates (checksum as 8-bit vectors).",
+            "Regex model validated against the real `re` on ~70k cases per run; alphabet TAB/LF/CR/printable ASCII + U+00E9; N=4/3 free "
+            "characters quick, 6/5 thorough, templates of 2 lines; rendered lines with leading blanks are a known finding."),
+    "C19": ("DESIGN.md 9/C19", TECH + "symbolic parameter text against an independent reference reader; handlers run on the symbolic text",
+            "Bounded symbolic model checking: for every parameter text of N symbolic characters that the reference reader accepts as a "
+            "legal word sequence, the parser's (name, value) pairs equal the reference pairs (values as exact rationals of the digit "
+            "characters), G0/G1 act on the last value per letter, G28 homes exactly the named axes.",
+            "Regex model validated per run; alphabet letters/digits/+-./blank/#; N=6 (pairs), 4 (G1), 3 (G28) quick; 7/5/3 thorough."),
+    "C20": ("DESIGN.md 9/C20", TECH + "relational: StreamProcessor.process_line vs. the live hooks of an independently built twin plugin",
+            "Bounded symbolic model checking, relational: from three live states (printing / inside an episode / exclusion disabled) a file "
+            "of 2 lines drawn from 12 (quick) / 16 (thorough) line templates x 4 decorations x 2 EOL styles is filtered by the real "
+            "StreamProcessor; per line the output must equal what the twin's live hooks return (byte-identical untouched lines, same "
+            "commands as RS274 readings each terminated by the file's EOL, None for suppressed); afterwards the live state is unchanged.",
+            "process_line driven directly with text; comm-layer tokenisation modelled (strip comment/line number/checksum/blanks); twin "
+            "built by replaying the prefix, not by copying."),
+})
+
 NOT_YET = {}
 
 
